@@ -53,20 +53,20 @@ type C16Module struct {
 }
 
 type C16Plan struct {
-	Seed      uint64      `json:"seed"`
-	Key       string      `json:"key"`
-	Enc       uint8       `json:"enc"`
-	Sql       bool        `json:"sql"`
-	DevMTU    int         `json:"dev_mtu"`    // device receives at most this (MaxServiceInfoSizeReceive)
-	OwnerMTU  int         `json:"owner_mtu"`  // owner receives at most this (0 = default)
-	ExtraMods int         `json:"extra_mods"` // device modules without owner counterpart
-	NameLen   int         `json:"name_len"`
+	Seed      uint64 `json:"seed"`
+	Key       string `json:"key"`
+	Enc       uint8  `json:"enc"`
+	Sql       bool   `json:"sql"`
+	DevMTU    int    `json:"dev_mtu"`    // device receives at most this (MaxServiceInfoSizeReceive)
+	OwnerMTU  int    `json:"owner_mtu"`  // owner receives at most this (0 = default)
+	ExtraMods int    `json:"extra_mods"` // device modules without owner counterpart
+	NameLen   int    `json:"name_len"`
 	// Uniform: the extra module names all have exactly NameLen characters, so
 	// that a sweep of the owner's MTU walks the module-list chunks through every
 	// fill level (exactly full, one byte short, one byte over) at a chosen count.
-	Uniform bool `json:"uniform,omitempty"`
-	Modules   []C16Module `json:"modules"`
-	Sched     SchedPolicy `json:"sched"`
+	Uniform bool        `json:"uniform,omitempty"`
+	Modules []C16Module `json:"modules"`
+	Sched   SchedPolicy `json:"sched"`
 }
 
 type c16 struct{ noPrepare }
